@@ -1,6 +1,6 @@
 (* C02 -- no request, however malformed, crashes the service or disturbs other requests.
    Only property theorems here, each closed by `exact <lemma>`; proofs are in Proofs*.v, the model in Defs.v. *)
-From CppcmsV Require Import Base.Tac Base.CSem C02.Defs C02.Proofs C02.Proofs2 C02.Proofs3.
+From CppcmsV Require Import Base.Tac Base.CSem C02.Defs C02.Proofs C02.Proofs2 C02.Proofs3 C02.Link gen.Gen_c02proto.
 Local Open Scope Z_scope.
 
 (* 1. declared length arithmetic: atoll is a saturating signed 64-bit value; a negative declared length is rejected
@@ -115,3 +115,16 @@ Example index_nonvacuous :
   (exists acc, parse_pairs 9 [1;1;65;66;1;200;67]%N 0 7 [] = PFalse acc) /\
   scgi_env 9 [65;0;66;0;44]%N 0 4 [] = Some [([65]%N, [66]%N)] /\ scgi_env 9 [65;0;66;67;44]%N 0 4 [] = None.
 Proof. vm_compute. repeat split. eexists. reflexivity. Qed.
+
+(* 7. tie to the source: the separator / token-character / ascii_to_lower leafs used by the request-line, header-name and
+      content-type models are the functions regenerated from private/http_protocol.h on this run (256-point sweeps) *)
+Theorem separator_is_source : forall b, (b < 256)%N -> g_c02_separator (wraps 8 (Z.of_N b)) = separator b.
+Proof. exact link_separator. Qed.
+Print Assumptions separator_is_source.
+Theorem token_char_is_source : forall b, (b < 256)%N ->
+  (Z.leb 32 (wraps 8 (Z.of_N b)) && Z.leb (wraps 8 (Z.of_N b)) 126 && negb (g_c02_separator (wraps 8 (Z.of_N b))))%bool = token_char b.
+Proof. exact link_token_char. Qed.
+Print Assumptions token_char_is_source.
+Theorem to_lower_is_source : forall b, (b < 256)%N -> Z.to_N (wrapu 8 (g_c02_lower (wraps 8 (Z.of_N b)))) = to_lower b.
+Proof. exact link_ascii_to_lower. Qed.
+Print Assumptions to_lower_is_source.
